@@ -358,8 +358,21 @@ class Gen:
         if d >= 1 and rng.random() < 0.7:
             k = rng.choice([64, 65, 64, 70]) if cfg["big_coll"] else rng.choice([1, 2, 3, 5])
             ms = [self.inv_matrix(n, 30.0 if k >= BATCH else COND_MAX) for _ in range(min(k, 6))]
+            if rng.random() < 0.4 and d >= 2:
+                # a collection of exactly AFFINE maps, given by representatives whose corner entry is not 1
+                ms = []
+                for _ in range(6):
+                    for _try in range(50):
+                        a_ = self.inv_matrix(n - 1, 30.0)
+                        c_ = rng.choice([1, 2, -1, 0.5, -2])
+                        m_ = [[a_[i][j] * c_ for j in range(n - 1)] + [rng.randint(-3, 3) * c_] for i in range(n - 1)]
+                        m_.append([0] * (n - 1) + [c_])
+                        if np.linalg.cond(np.array(m_, float)) <= 30:
+                            break
+                    ms.append(m_)
             ms = [ms[i % len(ms)] for i in range(k)]
-            s = self.add_recipe("transfcoll", [ms], {"dt": rng.choice(["f", "i", "i"])})
+            frac = any(isinstance(x, float) and x != int(x) for m_ in ms for row in m_ for x in row)
+            s = self.add_recipe("transfcoll", [ms], {"dt": "f" if frac else rng.choice(["f", "i", "i"])})
             self.T[s] = {"m": np.array(ms, float), "fshape": (k,)}
             self.kcoll = k
         else:
